@@ -89,6 +89,15 @@ def build_cases(tier, seed):
                             first = False
                             seen.add(key)
                             out.append(('ens', si, E, P, mode, sg, rgs, seed))
+    # no IMF cap: members (and the +/- pair of a flip member) may find different numbers of IMFs
+    for si in range(b['signals']):
+        for mode in ('single', 'flip'):
+            for sg in (0.2, 2.0):
+                for E in (1, 2, 3) if tier == 'quick' else (1, 2, 3, 4, 5):
+                    for P in (1, 2):
+                        C, cs = nchunks(E, P)
+                        for rgs in enum.restricted_growth_strings(C, P):
+                            out.append(('ens-nocap', si, E, P, mode, sg, rgs, seed))
     for si in range(b['signals']):
         for (E, P) in b['ceemd']:
             for mode in ('single', 'flip'):
@@ -123,8 +132,9 @@ def run_controlled(case):
     cm = forkpool.ControlledMP([list(rgs)])
     with forkpool.installed(cm):
         try:
-            if kind == 'ens':
-                res = S.ensemble_sift(x.copy(), nensembles=E, nprocesses=P, noise_mode=mode, ensemble_noise=sg, max_imfs=2)
+            if kind in ('ens', 'ens-nocap'):
+                res = S.ensemble_sift(x.copy(), nensembles=E, nprocesses=P, noise_mode=mode, ensemble_noise=sg,
+                                      max_imfs=2 if kind == 'ens' else None)
             else:
                 res = S.complete_ensemble_sift(x.copy(), nensembles=E, nprocesses=P, noise_mode=mode, ensemble_noise=sg, max_imfs=2)
         except forkpool.HarnessError:
@@ -183,6 +193,9 @@ def check_case(case):
     scale = 1e-12 * (1 + np.max(np.abs(x)))
     X = x[:, None]
     nper = 2 if mode == 'flip' else 1
+    nocap = kind == 'ens-nocap'
+    if nocap:
+        kind = 'ens'
     if kind == 'ens':
         imf = np.asarray(res)
         stage = sorted(jobs, key=lambda j: j[0])
@@ -212,13 +225,13 @@ def check_case(case):
                 viols.append(('%s:flip-pair' % kind, '%s: the two sifts of a member are not input +/- the same noise' % tag))
                 break
     # (2) the output is the per-IMF mean over members
-    want = member_mean(arrs, 2 if kind == 'ens' else 1)
+    want = member_mean(arrs, (None if nocap else 2) if kind == 'ens' else 1)
     got = imf if kind == 'ens' else imf[:, :1]
     if got.shape != want.shape or not np.max(np.abs(got - want)) <= scale:
         viols.append(('%s:not-the-mean' % kind, '%s: output differs from the mean of member decompositions (shape %r vs %r%s)' % (
             tag, got.shape, want.shape, '' if got.shape != want.shape else ', max diff %.3g' % np.max(np.abs(got - want)))))
     # (3) zero noise reduces to the classic sift
-    if sg == 0 and kind == 'ens':
+    if sg == 0 and kind == 'ens' and not nocap:
         ref = np.asarray(_orig['sift'](x.copy(), max_imfs=2))
         if imf.shape != ref.shape or not np.max(np.abs(imf - ref)) <= scale:
             viols.append(('ens:zero-noise', '%s: zero-noise ensemble differs from sift(x, max_imfs=2)' % tag))
